@@ -24,6 +24,9 @@ CD = [{}, {"extra": {"crossOrigin": False, "topOrigin": "https://top.example", "
       {"token_binding": {"status": "supported"}}, {"token_binding": {"status": "present", "id": "abc"}}, {"token_binding": "unused"}]
 
 
+RP_IDS = ["example.com", "Login.Example.org", "b\u00fccher.example", "localhost", "xn--bcher-kva.example", "a.b.c.d.example"]
+
+
 def work(tasks, idx):
     res = Result()
     drv = Driver(Oracle()) if work.driver_ok else None
@@ -35,8 +38,9 @@ def work(tasks, idx):
             c = cs[ci]
             if uvreq:
                 flags |= core.UV
+            rp_id = RP_IDS[(ci + counter + flags) % len(RP_IDS)]      # whatever string the RP uses as its id
             a, e, _ = faults.build_assertion(c, flags=flags, counter=counter, stored=stored, require_uv=uvreq, ext=ext,
-                                             cd_extra=CD[cdi].get("extra"))
+                                             cd_extra=CD[cdi].get("extra"), rp_id=rp_id, origin="https://" + rp_id)
             code = cases.run_auth(a, e)
             res.evaluations += 1
             tie.check(cases.auth_case(a, e), code, label=list(t))
@@ -60,7 +64,17 @@ def work(tasks, idx):
             kw["tpm_san_extra_dnsname_first"] = variant % 5 == 2     # an extra dNSName before the directoryName is still conformant
         if fmt in attest.CHAIN_FORMATS and fmt != "fido-u2f":
             kw["n_intermediates"] = variant % 3
+        kw["rp_id"] = RP_IDS[variant % len(RP_IDS)]
+        kw["origin"] = "https://" + kw["rp_id"]
         cred_id = bytes((variant + i) % 256 for i in range(idlen))
+        if variant % 6 == 1 and idlen >= 17:
+            # a credential id that happens to contain the byte pattern the parser's Ed25519 work-around looks for
+            bad = bytes.fromhex("a301634f4b500327206745643235353139")
+            cred_id = (cred_id[: idlen - 17 - variant % 3] + bad + cred_id[: variant % 3])[:idlen] if idlen > 17 else bad
+        if variant % 7 == 3 and fmt != "fido-u2f":
+            # fidelity only: the envelope's rawId/id name something else than the attested credential id; the record must
+            # still report what the authenticator data says
+            kw["envelope_id"] = bytes((variant * 3 + i) % 251 for i in range(16))
         b = _reg.build(fmt, choice, (), cred_id=cred_id, aaguid=bytes((variant * 13 + 7 * i + 1) % 256 for i in range(16)), **kw)
         if b is None:
             continue
